@@ -67,7 +67,7 @@ SIM = r'^\\\* <(\w+)[^\n]*\n'
 
 def scenarios(sc, tier, seed):
     scs = []
-    for cfg in ('MC_ReadProto_DevDrain.cfg', 'MC_ReadProto_DevDbl.cfg'):
+    for cfg in ('MC_ReadProto_DevDrain.cfg', 'MC_ReadProto_DevDbl.cfg', 'MC_ReadProto_DevEof.cfg'):
         o, _ = tlc_run(sc, cfg, cfg[:-4], workers=1)
         s = _scenario('tlc-%s' % cfg[13:-4], o, CE, 'window')
         if not s or not s['plan']:
@@ -96,7 +96,7 @@ def impl_check(sc, runs, tag):
     for f in ('ReadProto.tla', 'TraceRPImpl.tla'):
         shutil.copy(os.path.join(vlib.SPEC, f), wd)
     open(os.path.join(wd, 'TraceRPImpl.cfg'), 'w').write(
-        'SPECIFICATION TSpec\nPOSTCONDITION Report\nCHECK_DEADLOCK FALSE\nCONSTANTS\n  MaxN = 3\n  NOps = 2\n  MaxSend = 4\n  Dev_NoTimerDrain = FALSE\n  Dev_NoDoubleCheck = FALSE\n')
+        'SPECIFICATION TSpec\nPOSTCONDITION Report\nCHECK_DEADLOCK FALSE\nCONSTANTS\n  MaxN = 3\n  NOps = 2\n  MaxSend = 4\n  Dev_NoTimerDrain = FALSE\n  Dev_NoDoubleCheck = FALSE\n  Dev_NoEofRecheck = FALSE\n')
     blank = {'g': '', 'pt': 0, 'k': 0, 'rt': 0, 'inlen': 0, 'wrs': 0, 'closing': 0, 'opst': 1, 'tick': 0, 'pend': 0, 'n1': 1, 't1': 0, 'n2': 1, 't2': 0}
     n = 0
     with open(os.path.join(wd, 'sched.ndjson'), 'w') as f:
